@@ -9,7 +9,7 @@
     linked lists over disjoint entries, and all other members agree. *)
 From Coq Require Import NArith List Bool Arith PeanoNat Lia Permutation.
 From KdV Require Import Cache.CacheList Cache.CacheSpec Cache.CacheLemmas Cache.CacheInv
-  Cache.CacheProofs Cache.CacheGet Cache.CacheRing Cache.RingLinked.
+  Cache.CacheProofs Cache.CacheGet Cache.CacheMain Cache.CacheRing Cache.RingLinked.
 Import ListNotations.
 
 Definition ring5 (P GP U GQ Q : list nat) : list nat := P ++ GP ++ U ++ rev GQ ++ rev Q.
@@ -1551,4 +1551,138 @@ Proof.
   (* a real miss *)
   apply (sim_missed r s k cs); try assumption; try reflexivity.
   destruct HM as [M1 M2 M3 M4 M5 M6 M7 M8]. constructor; rsimp; assumption.
+Qed.
+
+(** * cache_get_entry_noref / cache_get_entry *)
+Lemma sim_get_noref r s k s1 oe ev :
+  R r s -> InvC s -> get_noref true s k = Ok (s1, oe, ev) ->
+  exists r1, r_get_noref r k = ROk (r1, oe, ev) /\ R r1 s1.
+Proof.
+  intros [HRl Haux] H Hg. pose proof Haux as Haux0. aux_inv Haux.
+  assert (HndL : NoDup (ring s)) by (apply (nodup_app_l _ _ (L_nd _ _ _ _ _ _ _ HRl))).
+  unfold get_noref in Hg. unfold r_get_noref.
+  rewrite (rscan_scan r s k (nx r) Akey Aref).
+  destruct (ptr_prec _ _ _ _ _ _ _ HRl) as [Hw0 Hc0]. rewrite Hw0, Hc0.
+  destruct (scan s k (prec s) None 0) as [[fo zp] nzp] eqn:Hs0.
+  pose proof (scan_spec _ _ _ _ _ _ _ _ Hs0) as Hsp0.
+  destruct fo as [e|].
+  { (* hit, precious *)
+    destruct Hsp0 as [He _]. apply cnt_in in He.
+    inversion Hg; subst s1 oe ev. clear Hg.
+    eexists. split; [reflexivity|]. split.
+    - simp_st. apply (rl_move_front r r (prec s) (gprec s) (unused s) (gprobe s) (probe s) (infl s) e); try reflexivity; try assumption; try (apply HRl).
+      + unfold ring5. apply in_or_app. left. exact He.
+      + rewrite (ring5_rm_P _ _ _ _ _ e HndL He). reflexivity.
+      + cbn [length]. rewrite (L_np _ _ _ _ _ _ _ HRl).
+        assert (NoDup (prec s)).
+        { apply (NoDup_count_occ Nat.eq_dec). intros x. fold (cnt (prec s) x).
+          pose proof (nodup_cnt _ x HndL) as Hc. unfold ring in Hc. rewrite !cnt_app in Hc. lia. }
+        apply length_rm_in; assumption.
+    - unfold r_reuse_cached, raux, saux.
+      match goal with |- context [if ?c then _ else _] => destruct c end; rsimp; simp_st; congruence. }
+  destruct Hsp0 as (_ & _ & _ & Hz0).
+  rewrite (rscan_scan r s k (pv r) Akey Aref).
+  destruct (ptr_probe _ _ _ _ _ _ _ HRl) as [Hw1 Hc1]. rewrite Hw1, Hc1.
+  destruct (scan s k (probe s) None 0) as [[fo zq] nzq] eqn:Hs1.
+  pose proof (scan_spec _ _ _ _ _ _ _ _ Hs1) as Hsp1.
+  destruct fo as [e|].
+  { (* hit, probed: promotion *)
+    destruct Hsp1 as [He _]. apply cnt_in in He.
+    inversion Hg; subst s1 oe ev. clear Hg.
+    assert (HndQ : NoDup (probe s)).
+    { apply (NoDup_count_occ Nat.eq_dec). intros x. fold (cnt (probe s) x).
+      pose proof (nodup_cnt _ x HndL) as Hc. unfold ring in Hc. rewrite !cnt_app, !cnt_rev in Hc. lia. }
+    eexists. split; [reflexivity|]. split.
+    - simp_st.
+      apply (rl_move_front r (rset_nprec (S (nprec r)) (rset_nprobe (nprobe r - 1) r)) (prec s) (gprec s) (unused s) (gprobe s) (probe s) (infl s) e);
+        try reflexivity; try assumption; try (apply HRl).
+      + unfold ring5. rewrite !in_app_iff, <- !in_rev. tauto.
+      + rewrite (ring5_rm_Q _ _ _ _ _ e HndL He). reflexivity.
+      + rsimp. cbn [length]. rewrite (L_np _ _ _ _ _ _ _ HRl). reflexivity.
+      + rsimp. rewrite (L_nq _ _ _ _ _ _ _ HRl). pose proof (length_rm_in _ _ HndQ He). lia.
+    - unfold r_reuse_cached, raux, saux.
+      match goal with |- context [if ?c then _ else _] => destruct c end; rsimp; simp_st; congruence. }
+  destruct Hsp1 as (_ & _ & _ & Hz1).
+  rewrite (rfind_find r s k _ Akey), (ptr_infl _ _ _ _ _ _ _ HRl).
+  destruct (find_key s k (infl s)) as [e|].
+  { (* somebody else's miss in progress *)
+    inversion Hg; subst s1 oe ev. clear Hg.
+    eexists. split; [rewrite Aest, Amiss; reflexivity|]. split.
+    - simp_st. apply (Rl_ptr r); [reflexivity|exact HRl].
+    - unfold raux, saux. rsimp. simp_st. congruence. }
+  rewrite (L_np _ _ _ _ _ _ _ HRl), (L_nq _ _ _ _ _ _ _ HRl), (L_nin _ _ _ _ _ _ _ HRl), Acap.
+  destruct (Nat.leb_spec (cap s) (length (prec s) - nzp + (length (probe s) - nzq) + length (infl s)))
+    as [Hbusy|Hroom].
+  { inversion Hg; subst s1 oe ev. eexists. split; [reflexivity|]. split; assumption. }
+  (* miss or ghost hit *)
+  destruct (ghost_or_missed true s k (mksearch zp nzp zq nzq)) as [[[s2 e] ev2]|] eqn:Hgom; [|discriminate].
+  inversion Hg; subst s1 oe ev. clear Hg.
+  pose proof (total_length s H) as Htot.
+  destruct (C_unused _ H) as (em & fu & Hu & Hl & _).
+  assert (Hlr : length (ring s) + length (infl s) = 2 * cap s) by (rewrite ring_len; lia).
+  pose proof (C_cap _ H) as Hcap.
+  destruct (sim_gom r s k (mksearch zp nzp zq nzq)
+              (mkrsearch (gprecP (prec s) (gprec s) (unused s) (gprobe s) (probe s)) 0 zp nzp
+                         (gprobeP (prec s) (gprec s) (unused s) (gprobe s) (probe s)) 0 zq nzq)
+              s2 e ev2 HRl Haux0) as (r2 & E2 & HRl2 & Ha2); try assumption; try lia.
+  - constructor; rsimp; cbn [zprec nzprec zprobe nzprobe]; try reflexivity.
+    + intros v ->. destruct Hz0 as [(_ & Hz & _)|(_ & w & Hw & Hin & _)]; [discriminate|].
+      inversion Hw; subst. apply cnt_in. exact Hin.
+    + intros v ->. destruct Hz1 as [(_ & Hz & _)|(_ & w & Hw & Hin & _)]; [discriminate|].
+      inversion Hw; subst. apply cnt_in. exact Hin.
+  - rewrite E2. eexists. split; [reflexivity|]. split.
+    + simp_st. apply (Rl_ptr r2); [reflexivity|exact HRl2].
+    + unfold raux, saux in *. rsimp. simp_st. congruence.
+Qed.
+
+Lemma sim_get r s k : R r s -> InvC s -> sim_post r s (Get k).
+Proof.
+  intros HR H. destruct (get_all s k H) as (s' & x & ev & Hs & _).
+  unfold sim_post. cbn [step rstep]. rewrite Hs. unfold do_get in Hs. unfold r_do_get.
+  destruct (get_noref true s k) as [[[s1 oe] ev1]|] eqn:Hg; [|discriminate].
+  destruct (sim_get_noref r s k s1 oe ev1 HR H Hg) as (r1 & E1 & [HRl1 Ha1]).
+  rewrite E1. pose proof Ha1 as Ha1'. aux_inv Ha1'.
+  destruct oe as [e|].
+  - rsimp. simp_st. rewrite Aref, Aest, Adata.
+    destruct (estate_valid (est s1 e)).
+    + inversion Hs; subst s' x ev.
+      do 4 eexists. split; [reflexivity|]. split; [rewrite Aplain; reflexivity|]. split.
+      * simp_st. apply (Rl_ptr r1); [reflexivity|exact HRl1].
+      * unfold raux, saux. rsimp. simp_st. congruence.
+    + destruct (data s1 e) as [t|]; [|discriminate].
+      inversion Hs; subst s' x ev.
+      do 4 eexists. split; [reflexivity|]. split; [rewrite Apend, Acont; reflexivity|]. split.
+      * simp_st. apply (Rl_ptr r1); [reflexivity|exact HRl1].
+      * unfold raux, saux. rsimp. simp_st. congruence.
+  - inversion Hs; subst s' x ev.
+    do 4 eexists. split; [reflexivity|]. split; [reflexivity|]. split; assumption.
+Qed.
+
+(** * The simulation theorem *)
+Theorem ring_refines r s o : R r s -> Inv s -> legal s o ->
+  exists s' r' x ev, step true s o = Ok (s', x, ev) /\ rstep r o = ROk (r', x, ev) /\
+                     R r' s' /\ Inv s'.
+Proof.
+  intros HR H Hl. pose proof (proj1 (Inv_InvC s) H) as HC.
+  assert (Hsim : sim_post r s o).
+  { destruct o as [k|e|e|e|]; cbn [legal] in Hl.
+    - apply sim_get; assumption.
+    - apply sim_insert; assumption.
+    - apply sim_discard; assumption.
+    - apply sim_put; assumption.
+    - apply sim_flush; assumption. }
+  destruct Hsim as (s' & r' & x & ev & Hs & Hr & HR').
+  exists s', r', x, ev. split; [exact Hs|]. split; [exact Hr|]. split; [exact HR'|].
+  destruct (CacheMain.step_sound s o H Hl) as (s2 & x2 & ev2 & Hs2 & Hi & _).
+  rewrite Hs in Hs2. inversion Hs2; subst. exact Hi.
+Qed.
+
+Theorem ring_refines_history : forall ops r s, R r s -> Inv s -> legal_hist true s ops ->
+  exists r' s', rrun r ops = ROk r' /\ run true s ops = Ok s' /\ R r' s' /\ Inv s'.
+Proof.
+  induction ops as [|o ops IH]; intros r s HR H Hl; cbn [rrun run legal_hist] in *.
+  - exists r, s. split; [reflexivity|]. split; [reflexivity|]. split; assumption.
+  - destruct Hl as [Hlo Hrest].
+    destruct (ring_refines r s o HR H Hlo) as (s1 & r1 & x & ev & Hs & Hr & HR1 & H1).
+    rewrite Hs in *. rewrite Hr. apply IH; assumption.
 Qed.
